@@ -16,6 +16,8 @@ mod c18;
 mod c03;
 mod c07;
 mod c09;
+mod c10;
+mod seqx;
 mod c13;
 mod c14;
 mod c17;
